@@ -127,8 +127,9 @@ Recv(e) ==
                 IF NotificationOK(e.resp) THEN TRUE
                 ELSE IF NotificationOKModuloUnbindForm(e.resp) THEN Verdict("C05", "NotificationUnbindConstructed")
                 ELSE Verdict("C05", "WellFormedNotification"))
-       ELSE \* some other exception escaped: the session must at least not pretend to be usable
-          TRUE
+       ELSE \* some other exception escaped (C05 OnlyProtocolError above); on a well-formed stream the session accepts,
+            \* the messages of this delivery are lost for the caller whatever the exception class is
+          (framing /\ clean /\ ~mayFail => Verdict("C02", "SpuriousError"))
     /\ Adopt(e, x.ctr)
     /\ ibuf' = IF e.res = "ok" THEN tail ELSE <<>>
     /\ queue' = rest
